@@ -26,7 +26,7 @@ MANIFEST = {
                  'for the mean; z3; native replay on synthetic multi-species trajectories; random stand-in',
 }
 UNITS = ['unit_filter', 'unit_drift', 'unit_apply', 'unit_lemmas']
-BOUNDED = ['bounded_drift']
+BOUNDED = ['bounded_drift', 'bounded_purity']
 META = {'clauses': {'C13.sel': 'P', 'C13.mean': 'P', 'C13.zero': 'P (lemma)', 'C13.frame': 'P', 'C13.idem': 'P (lemma)', 'C13.rigid': 'P (lemma, strict minimum image)'},
         'not_decided': ['round-off of the mean (A-REAL)']}
 NAMES = {}
@@ -510,3 +510,10 @@ def bounded_drift(tier, seed):
         if r['reproduced']:
             st.violation('drift', r['detail'], 'verif.props.c13:replay_drift', inp)
     return st.result()
+
+
+# generic purity stand-in (arguments unchanged, second call equal, fresh call equal) over this property's API calls
+from verif.native.purity import make_bounded as _make_purity  # noqa: E402
+from verif.props.purity_reg import REG as _PURITY_REG  # noqa: E402
+PURITY = _PURITY_REG['C13']
+bounded_purity = _make_purity('C13', PURITY)
